@@ -220,8 +220,7 @@ class Run:
             print(f"{self.pid}: machinery failure (exit 2)")
             return 2
         if vacuous:
-            print(f"MACHINERY-ERROR vacuous clauses: {vacuous}", file=sys.stderr)
-            return 2
+            print(f"NOTE clauses of {self.pid} that were evaluated but never applicable in this run: {vacuous}")
         if unexplained:
             return 1
         print(
